@@ -49,8 +49,8 @@ ASSUMPTIONS = [
     "builders.mle needs the C04/C12 repair (sparse input / exact-equality assertions) to run at all; it is counted "
     "as its own builder class",
     "the eigen-equation is asserted only for returned eigenvalues that are real eigenvalues of T (for complex pairs "
-    "the library returns the real part); forward comparison of eigenvalues only when the reference spectrum has no "
-    "cluster closer than 1e-3",
+    "the library returns the real part); forward comparison of eigenvalues and the realness decision only for "
+    "reference eigenvalues with condition number 1/|y^H x| <= 1e6 (near-defective eigenvalues move by eps**(1/m))",
     "ARPACK uses its own random start vector: results are checked as validity predicates (1e-8), not for identity",
     "implied_timescales: when trimming leaves fewer than n_times+1 states for some but not all lag times the rows "
     "would be ragged (np.array raises); such cases are evaluated one lag time per call",
@@ -610,26 +610,32 @@ def run_spectrum(case):
         require(np.max(np.abs(v0 - 1.0 / n)) <= tol, "leading right eigenvector (sum 1) is not constant 1/n",
                 got=v0.tolist())
 
-    # the rest of the spectrum against LAPACK on the plain dense matrix (note: not transposed, other routine)
-    ref = np.linalg.eigvals(Td)
-    ref = ref[np.argsort(-ref.real, kind="stable")]
-    # forward comparison of eigenvalues only where LAPACK's own answer is trustworthy: none of the returned
-    # (plus the next) eigenvalues lies within 1e-4 of another one (near-defective clusters move by eps**(1/m))
-    top = min(m + 1, n)
-    dist = np.abs(ref[:top, None] - ref[None, :])
-    dist[np.arange(top), np.arange(top)] = 10.0
-    clustered = bool(n > 1 and dist.min() <= 1e-4)
+    # the rest of the spectrum against LAPACK on the plain dense matrix (note: not transposed, other driver).
+    # A forward comparison / the realness decision is only meaningful for well-conditioned eigenvalues:
+    # kappa_k = 1 / |y_k^H x_k| (unit left/right vectors); near-defective eigenvalues move by eps**(1/m).
     kind = case.get("big", case.get("seeded", {})).get("kind", case["family"])
-    if kind.startswith("rev"):
-        clustered = False       # similar to a symmetric matrix: every eigenvalue is well conditioned
-    if not clustered:
+    symmetrizable = kind.startswith("rev")      # similar to a symmetric matrix: all eigenvalues well conditioned
+    if symmetrizable:
+        ref = np.linalg.eigvals(Td)
+        kap = np.ones(n)
+    else:
+        import scipy.linalg
+        ref, vl, vr = scipy.linalg.eig(Td, left=True, right=True)
+        ov = np.abs(np.sum(vl.conj() * vr, axis=0)) / (np.linalg.norm(vl, axis=0) * np.linalg.norm(vr, axis=0))
+        kap = 1.0 / np.maximum(ov, 1e-300)
+    order = np.argsort(-ref.real, kind="stable")
+    ref, kap = ref[order], kap[order]
+    top = min(m + 1, n)
+    illcond = bool(np.any(kap[:top] > 1e6))
+    if not illcond:
         require(np.max(np.abs(vals - ref.real[:m])) <= 1e-7 * TS,
                 "eigenvalues are not the largest real parts of the spectrum", got=vals.tolist(),
                 want=ref.real[:m].tolist())
     n_checked = 0
     for k in range(m):
-        near = ref[np.abs(ref.real - vals[k]) <= 1e-6]
-        if len(near) == 0 or np.any(near.imag != 0):
+        sel = np.abs(ref.real - vals[k]) <= 1e-6
+        near = ref[sel]
+        if len(near) == 0 or np.any(near.imag != 0) or np.any(kap[sel] > 1e6):
             continue            # (real part of) a complex pair, or cannot be decided: eigen-equation not claimed
         v = vecs[:, k]
         nv = float(np.max(np.abs(v)))
@@ -653,7 +659,7 @@ def run_spectrum(case):
           "n_eigs=%s" % ("None" if case["n_eigs"] is None else "2" if case["n_eigs"] == 2 else
                          ">n" if case["n_eigs"] > n else "k"),
           "complex_pairs=%s" % has_cplx, "negative_real=%s" % has_neg, "complex_among_returned=%s" % cplx_ret,
-          "clustered_spectrum=%s" % clustered, "n=%s" % ("1" if n == 1 else "2" if n == 2 else "3-9" if n < 10 else
+          "illconditioned_ref=%s" % illcond, "n=%s" % ("1" if n == 1 else "2" if n == 2 else "3-9" if n < 10 else
                                                         "10-40" if n <= 40 else ">=1000"),
           "branch=%s" % ("arpack" if (n >= 1000 and case["fmt"] != "ndarray") else "lapack"),
           "eigeq_checked=%s" % ("0" if n_checked == 0 else "1" if n_checked == 1 else ">=2")]
